@@ -23,7 +23,7 @@ def unblock_ref(data, final=True):
         out += blk[:1012]
     if not final:
         rest = data[nfull * 1014:]
-        if len(rest) >= 1012:
+        if len(rest) > 1012:          # exactly 1012 = payload complete, trailer pending: a legal intermediate state
             return None, 'partial block of %d bytes without trailer' % len(rest)
         out += rest
     return out, None
